@@ -238,3 +238,9 @@ def run(ctx, rep):
     ok6 = set(keys) >= set(SIX) and set(keys) <= set(SIX)
     rep.ob('R11.6', 'converter-keys', ok6, f'converter is called with keys {sorted(keys)}')
     rep.floor('converter call keys', len(keys), 6)
+    # Imsaak has no conversion of its own: it must be the converter's output for the rerun's Fajr under the perturbed
+    # parameters (an offset applied to the finished clock time would escape the rounding)
+    from . import shared, imsaak as _imsaak
+    shared.include(ctx, rep, lambda c_, r_: _imsaak.check(c_, r_, 'R11.8'), {'R11.8'},
+                   keys=lambda k: k in ('imsaak:is-rerun-fajr', 'imsaak:only-fajr-entries', 'imsaak:params-shape'),
+                   why='Imsaak is rounded by the same converter')
